@@ -319,6 +319,47 @@ def check_accepted(w, impl, r, c, hsid, ck_expect, rep, trig):
                         'second open Set-Cookie %r, configured %r' % (sc2, ck_expect), rep)
 
 
+def check_overlapping_opens(impl, kind, n, ctx=None):
+    """n open requests whose connect handlers run at the same time (each takes a quarter of a
+    virtual second): every client is told the id its own connect handler was given."""
+    rep = {'overlap': [impl, kind, n]}
+    w = make_world(impl, {'http_compression': False}, handler_delay={'connect': 0.25})
+    try:
+        reqs = []
+        for i in range(n):
+            hdrs = [('X-Verif-Open', str(i)), ('Host', 'localhost')]
+            if kind == 'polling':
+                reqs.append(w.http('GET', 'transport=polling&EIO=4', headers=hdrs))
+            else:
+                reqs.append(w.ws_open('transport=websocket&EIO=4', headers=hdrs))
+            w.settle()                  # the handler of this open is now taking its time
+        w.advance(2.0)
+        for i, r in enumerate(reqs):
+            want = w.app_log.ord_sid.get(i)
+            if kind == 'polling':
+                if not r.done or r.status != 200:
+                    raise V(impl, 'open-not-answered-200', 'overlapping|' + kind,
+                            'open #%d: done=%s status=%s' % (i, r.done, r.status), rep)
+                first = r.resp_body.decode('utf-8').split(rm.SEP)[0]
+            else:
+                if not r.accepted or not r.sent:
+                    raise V(impl, 'open-not-answered-200', 'overlapping|' + kind,
+                            'open #%d: accepted=%s frames=%r' % (i, r.accepted, r.frames()), rep)
+                first = r.frames()[0]
+            try:
+                got = json.loads(first[1:]).get('sid') if first[:1] == '0' else None
+            except ValueError:
+                got = None
+            if want is None or got != want:
+                raise V(impl, 'sid-differs-from-handler', 'overlapping-opens|' + kind,
+                        'open #%d of %d overlapping ones: OPEN says %r, its connect handler got %r'
+                        % (i, n, got, want), rep)
+        if ctx:
+            ctx.case(rep, True, [impl, 'overlapping-opens', 'kind-' + kind])
+    finally:
+        w.teardown()
+
+
 def run_shard(ctx):
     quick = ctx.tier == 'quick'
     allc = list(cells())
@@ -340,8 +381,21 @@ def run_shard(ctx):
             elif v.signature not in ctx.ignored:
                 ctx.add_violation(v)
     ctx.notes.append('grid size %d feasible cells' % len(allc))
+    if ctx.shard < 4:
+        impl = 'thread' if ctx.shard % 2 == 0 else 'async'
+        kind = 'polling' if ctx.shard < 2 else 'websocket'
+        for n in (2, 3, 5):
+            try:
+                check_overlapping_opens(impl, kind, n, ctx)
+            except Violation as v:
+                if ctx.is_known(v):
+                    ctx.note_known(v)
+                elif v.signature not in ctx.ignored:
+                    ctx.add_violation(v)
 
 
 def replay(case, ctx):
+    if 'overlap' in case:
+        return check_overlapping_opens(*case['overlap'])
     c = case['cell']
     check_cell(tuple(c), greets=case.get('greets', 0))
